@@ -244,14 +244,14 @@ def match_names(ref: list[list[str]], cur: list[tuple[str, str]], used: set[str]
     return {o: n for o, n in mapping.items() if n not in used}
 
 
-def recover(tree: ast.Module, src: str, rel: str) -> int:
+def recover(tree: ast.Module, src: str, rel: str, external_calls: set[str] | None = None) -> int:
     """normalise tree (in place) towards the reviewed shape; returns the number of rewrites"""
     table = load_table().get(rel)
     if not table:
         return 0
     from .normalize import eliminate_new_aliases, hoist_walrus, inline_new_helpers
     n = hoist_walrus(tree) if ":=" in src else 0
-    n += inline_new_helpers(tree, set(table))
+    n += inline_new_helpers(tree, set(table), external_calls or set())
     scopes = _function_scopes(tree)
     # inner scopes first: an outer rename then sees the final inner names when checking for capture
     for sc in sorted(scopes, key=lambda s: -s.qual.count(".")):
